@@ -573,8 +573,12 @@ class Supercell(object):
 
         # 2. identify the shortest common set of defects:
         defcount = {k: len(v) for k, v in selfdefects.items()}
-        deftype = min(defcount, key=defcount.get)  # key to min value from dictionary
-        shortset, matchset = selfdefects[deftype], otherdefects[deftype]
+        if defcount:
+            deftype = min(defcount, key=defcount.get)  # key to min value from dictionary
+            shortset, matchset = selfdefects[deftype], otherdefects[deftype]
+        else:
+            # no defects at all: nothing to pre-screen, any operation that maps the occupation will do
+            shortset, matchset = (), ()
 
         mapping = None
         gocc = self.occ.copy()
